@@ -123,6 +123,19 @@ def scnStep (op impl : String) : StepOut := Id.run do
   -- the transport of a path that was being probed (cause=kaprobe)
   if field impl "rt.p" ≠ "" && field impl "rt.p" ≠ "0/0" then
     fails := fails ++ [("routing_released", "-", s!"routing entries/reset tokens left on the probed path's transport: {field impl "rt.p"}")]
+  -- ---------- single-use transports (quic.Listen / quic.Dial): once the listener is closed and the last connection
+  -- is gone and retired, nobody reads from the socket any more (read loop and send queue goroutines released)
+  let su := natOf (field op "su")
+  let lc := natOf (field op "lc")
+  let cc := natOf (field op "cc")
+  if su ≥ 1 && field impl "rd.s" ≠ "" && field impl "rd.s" ≠ "0" then
+    -- ghost from the scenario only: the listener went first and the server's connection then ended by an
+    -- immediate close (no stand-in, packetHandlerMap.Remove): the listed finding C17-single-use-remove-path
+    let immediate := sC == "idle" || sC == "hstimeout" || sC == "reset" || sC == "tclosed"
+    let cls := if lc == 1 && immediate then "remove_path" else "-"
+    fails := fails ++ [("transport_released", cls, s!"quic.Listen's transport still reads from its socket after the listener was closed ({if lc == 1 then "before" else "after"} the connection ended, server cause {sC}) and nothing is routed: rt.s={field impl "rt.s"}")]
+  if su == 2 && field impl "rd.c" ≠ "" && field impl "rd.c" ≠ "0" then
+    fails := fails ++ [("transport_released", "-", s!"quic.Dial's transport still reads from its socket after its connection ended (dial {dial}, client cause {cC})")]
   let setupRace := field impl "pre" == "0" && cause ≠ "idle" && (cC == "idle" || sC == "idle")
   if field impl "pre" == "0" && !setupRace then
     fails := fails ++ [("blocked_calls_block", "-", "a call returned before the connection ended")]
@@ -144,6 +157,9 @@ def scnStep (op impl : String) : StepOut := Id.run do
           fails := fails ++ [("prompt_return", "-", s!"{sd}.{n} still blocked after the connection ended")]
         else if e ≠ cz then
           fails := fails ++ [("all_same_cause", "-", s!"{sd}.{n} returned {e}, connection cause {cz}")]
+      let sctx := field impl (sd ++ ".sctx")
+      if sctx ≠ "" && sctx ≠ cz then
+        fails := fails ++ [("all_same_cause", "-", s!"{sd}: the context of a stream was cancelled with {sctx}, the connection's cause is {cz}")]
       if field impl (sd ++ ".dt") ≠ "0" && field impl (sd ++ ".dt") ≠ "" then
         fails := fails ++ [("prompt_return", "-", s!"{sd}: a blocked call returned {field impl (sd ++ ".dt")} ns away from the context cancellation")]
       for (n, e) in entries (field impl (sd ++ ".later")) do
@@ -267,6 +283,8 @@ def scnStep (op impl : String) : StepOut := Id.run do
     ++ (if drop > 0 then ["drop"] else []) ++ (if kaMs > 0 then ["keepalive"] else []) ++ (if dial ≠ "nil" then [s!"dial:{dial}"] else [])
     ++ (if setupRace then ["setup-idle-race"] else [])
     ++ (if field op "ut" == "1" then ["utransport"] else [])
+    ++ (if su ≥ 1 then [s!"single-use:{su}", s!"listener-closed-first:{lc}"] else [])
+    ++ (if cc ≥ 1 then [s!"conncontext:{cc}"] else [])
     ++ (if cause == "vn" then [s!"vn:mode{vm}", s!"vn:fired{field impl "vnfired"}"] else [])
     ++ (if cause == "kaprobe" then [s!"probe:pm{pm}", s!"probe:{field impl "probe"}", s!"probe:ka-{field op "kaside"}"] else [])
   return { model := model, tags := tags, fails := fails }
